@@ -38,22 +38,46 @@ fn compute(c: &Case, fb: u8) -> (Result<Vec<u8>, String>, Vec<u8>) {
                 1 => 64 + r.below(200),
                 _ => 256 + r.below(1100),
             } as usize;
-            let pos = match r.below(4) {
-                0 => 0,
-                1 => r.below(64),
-                2 => ((1u64 << 38) - 2048) + r.below(1024),
-                _ => r.u64() >> 27,
-            } as u128;
-            let pos = if layout == crate::refmodel::chacha::Layout::Ietf { pos.min((1u128 << 38) - len as u128) } else { pos };
+            let is_ietf = layout == crate::refmodel::chacha::Layout::Ietf;
+            // positions over the whole seekable range, so that both counter words are exercised:
+            // two seek+apply steps on one instance, the second with a different counter high word
+            let mut pick = |r: &mut Rng, len: usize| -> u128 {
+                let p: u128 = match r.below(6) {
+                    0 => 0,
+                    1 => r.below(64) as u128,
+                    2 => ((1u128 << 38) - 2048) + r.below(1024) as u128,
+                    3 => (r.u64() >> 27) as u128,
+                    // just below a 2^32-block multiple (the narrow path then steps the high word)
+                    4 => (((1 + r.below(1 << 20)) as u128) << 38) - 64 * (1 + r.below(3)) as u128 - r.below(64) as u128,
+                    _ => r.u64() as u128,
+                };
+                if is_ietf {
+                    (p % (1u128 << 38)).min((1u128 << 38) - len as u128)
+                } else {
+                    p.min(u64::MAX as u128)
+                }
+            };
+            let pos = pick(&mut r, len);
+            let len2 = 1 + r.below(200) as usize;
+            let pos2 = pick(&mut r, len2);
             let data = r.bytes(len);
+            let data2 = r.bytes(len2);
             let mut exp = data.clone();
-            RefStream::new(layout, dr, &key, &nonce).xor(pos, &mut exp);
+            let mut rf = RefStream::new(layout, dr, &key, &nonce);
+            rf.xor(pos, &mut exp);
+            let mut e2 = data2.clone();
+            rf.xor(pos2, &mut e2);
+            exp.extend_from_slice(&e2);
             api::force_backend(fb);
             let got = guarded(|| {
                 let mut ci = api::new_cipher(ty, &key, &nonce);
                 let mut d = data.clone();
                 ci.try_seek(api::SeekTy::U64, pos, false).expect("seek");
                 ci.try_apply(&mut d).expect("apply");
+                let mut d2 = data2.clone();
+                ci.try_seek(api::SeekTy::U64, pos2, false).expect("seek");
+                ci.try_apply(&mut d2).expect("apply");
+                d.extend_from_slice(&d2);
                 d
             });
             api::force_backend(0);
